@@ -314,8 +314,16 @@ Fixpoint g_lvs (h : heap) (e : env) (ls : list lv) {struct ls} : option (list ta
     from the compiled run) *)
 Definition growth := nat -> nat -> nat -> nat.
 
+(** a slice value as (base, off, len, cap); the nil slice has capacity 0 *)
+Definition slice_view (sv : val) : option (path * nat * nat * nat) :=
+  match sv with
+  | VSlice base off len cap => Some (base, off, len, cap)
+  | VNil => Some ((0, []), 0, 0, 0)
+  | _ => None
+  end.
+
 Definition append_vals (grow : growth) (h : heap) (ek : nat) (zero : val) (sv : val) (vs : list val) : option (val * heap) :=
-  match (match sv with VSlice base off len cap => Some (base, off, len, cap) | VNil => Some ((0, []), 0, 0, 0) | _ => None end) with
+  match slice_view sv with
   | Some (base, off, len, cap) =>
       let n := length vs in
       if len + n <=? cap then
